@@ -38,9 +38,10 @@ def quote_param(v):
     return v.replace("\\", "\\\\").replace('"', '\\"')
 
 
-def encode(parts, boundary, final_crlf=True, preamble=b""):
+def encode(parts, boundary, final_crlf=True, preamble=b"", extra=None):
+    """`extra`: per part, further header lines some clients send (RFC 7578 4.8: to be ignored)"""
     out = [preamble]
-    for name, filename, ctype, content in parts:
+    for i, (name, filename, ctype, content) in enumerate(parts):
         disp = 'form-data; name="%s"' % quote_param(name)
         if filename is not None:
             disp += '; filename="%s"' % quote_param(filename)
@@ -48,6 +49,8 @@ def encode(parts, boundary, final_crlf=True, preamble=b""):
         out.append(("Content-Disposition: %s\r\n" % disp).encode("utf-8"))
         if ctype is not None:
             out.append(("Content-Type: %s\r\n" % ctype).encode("utf-8"))
+        for line in (extra[i] if extra else []):
+            out.append(line.replace("%LEN%", str(len(content))).encode("utf-8") + b"\r\n")
         out.append(b"\r\n")
         out.append(content)
         out.append(b"\r\n")
@@ -255,7 +258,12 @@ def oracle(case):
     if regime in ("cap", "e2e-big"):
         parts = parts[:2]
     final = rng.random() < 0.7
-    body = encode(parts, boundary, final)
+    extra = None
+    if rng.random() < 0.3:
+        # part headers other than Content-Disposition/Content-Type: a Content-Length of the part, a transfer encoding
+        pool = ["Content-Length: %LEN%", "Content-Transfer-Encoding: binary", "X-Part-Id: 7", "content-length: %LEN%"]
+        extra = [rng.sample(pool, rng.randrange(0, 3)) for _ in parts]
+    body = encode(parts, boundary, final, extra=extra)
     want = expect(parts)
     factory = Factory() if rng.random() < 0.3 else None
     cl = len(body) if rng.random() < 0.8 else None
@@ -295,8 +303,8 @@ def oracle(case):
         if factory.calls != files:
             bad = "file factory was called for %r, file parts are %r" % (factory.calls, files)
     if bad:
-        return [Violation("c08:roundtrip", case, "%s [%s, boundary %r, final CRLF %s, Content-Length %s, %s]"
-                          % (bad, desc, boundary, final, cl, [(n, f, len(c)) for n, f, _, c in parts]))]
+        return [Violation("c08:roundtrip", case, "%s [%s, boundary %r, final CRLF %s, Content-Length %s, %s, extra part headers %s]"
+                          % (bad, desc, boundary, final, cl, [(n, f, len(c)) for n, f, _, c in parts], extra))]
     return []
 
 
